@@ -561,21 +561,22 @@ Fixpoint count_codes (hist : list N) (i num_codes code : N) : N * N :=
     else count_codes t (i + 1) num_codes code
   end.
 
-(* ---- BrotliStoreHuffmanTree(depths, num, tree, storage_ix, storage) ---- *)
+(* ---- BrotliStoreHuffmanTree(depths, num, tree, storage_ix, storage) ----
+   returns (bits, tree, number of count_limit doublings of the code length code's own tree) *)
 Definition store_huffman_tree (depths : list N) (num : N) (pool : list node) (out : bitlist)
-  : res (bitlist * list node) :=
+  : res (bitlist * list node * N) :=
   huffman_tree <- write_huffman_tree depths num 704 ;;
   hist <- for_in 0 (N.of_nat (length huffman_tree)) (fun i hist =>
       '(s, _) <- getA huffman_tree i ;;
       c <- getA hist s ;;
       setA hist s (wadd32 c 1)) (repeat 0 18) ;;
   let '(num_codes, code) := count_codes hist 0 0 0 in
-  '(cl, pool, _) <- create_huffman_tree hist cl_alphabet_size (Z.of_N cl_tree_limit) pool (repeat 0 18) ;;
+  '(cl, pool, retries) <- create_huffman_tree hist cl_alphabet_size (Z.of_N cl_tree_limit) pool (repeat 0 18) ;;
   cl_symbols <- convert_bit_depths_to_symbols cl 18 (repeat 0 18) ;;
   out <- store_huffman_tree_of_huffman_tree_to_bit_mask num_codes cl out ;;
   cl <- (if num_codes =? 1 then setA cl code 0 else Done cl) ;;
   out <- store_huffman_tree_to_bit_mask huffman_tree cl cl_symbols out ;;
-  Done (out, pool).
+  Done (out, pool, retries).
 
 (* ---- StoreSimpleHuffmanTree(depths, symbols, num_symbols, max_bits, ..) ---- *)
 (* for i in 0..num { for j in i+1..num { if depths[symbols[j]] < depths[symbols[i]] { symbols.swap(j, i) } } } *)
@@ -652,7 +653,7 @@ Definition build_and_store_huffman_tree (histogram : list N) (histogram_length a
       out <- store_simple_huffman_tree depth s4 count max_bits out ;;
       Done (depth, bits, out, pool)
     else
-      '(out, pool) <- store_huffman_tree depth histogram_length pool out ;;
+      '(out, pool, _) <- store_huffman_tree depth histogram_length pool out ;;
       Done (depth, bits, out, pool).
 
 (* ------------------------------------------------------------------------------------------
